@@ -1,7 +1,7 @@
 #!/bin/bash
 # record_seed2.sh <round> <Cxx> <m-in> <m-out> "<needs>" "<detected-by>" : store a confirmed seed of a later round under
 # /verif/seeded/<Cxx>-<m-out>/ with its patch refreshed against /repo HEAD
-R=$1; ID=$2; MI=$3; MO=$4; NEEDS=$5; DET=$6
+export SEED_ROUND=$1; R=$1; ID=$2; MI=$3; MO=$4; NEEDS=$5; DET=$6
 SRC=/tmp/seed$R/$ID/$MI; DST=/verif/seeded/$ID-$MO
 mkdir -p $DST
 cp $SRC/patch.diff $DST/patch.orig.diff
@@ -13,7 +13,7 @@ python3 - "$DST" "$ID" "$NEEDS" "$DET" <<'PY'
 import json,sys,os
 d,prop,needs,det=sys.argv[1:5]
 conf=open(os.path.join(d,'confirm.log')).read() if os.path.exists(os.path.join(d,'confirm.log')) else ''
-json.dump({"property":prop,"breaks":prop,"round":2,"needs_to_manifest":needs,
+json.dump({"property":prop,"breaks":prop,"round":int(os.environ.get("SEED_ROUND","2")),"needs_to_manifest":needs,
  "confirmed_by":"tools/confirm_seed*.sh in the agent's scratch worktree: crate tests pass with the change, demo fails with it, passes without",
  "confirm_result":[l for l in conf.split('\n') if l.startswith('RESULT') or 'CONFIRMED' in l],
  "check_run":"tools/seedtest.sh %s/patch.diff %s"%(d,prop),"detected_by":det,
